@@ -80,11 +80,15 @@ impl EnvKey {
                     Some(joiner) => joiner,
                     None => " ",
                 };
-                let last = list.len() - 1;
-                for (pos, s) in list.iter().enumerate() {
+                let mut first = true;
+                for s in list.iter() {
                     if s.is_empty() {
                         continue;
                     }
+                    if !first {
+                        res.push_str(joiner);
+                    }
+                    first = false;
                     if let Some(prefix) = &opts.prefix {
                         res.push_str(prefix);
                     }
@@ -93,9 +97,6 @@ impl EnvKey {
 
                     if let Some(suffix) = &opts.suffix {
                         res.push_str(suffix);
-                    }
-                    if pos != last {
-                        res.push_str(joiner);
                     }
                 }
             }
